@@ -5,8 +5,9 @@
    Model/DomTree.v (interval numbering proved for every tree; the other models: bounded). *)
 From PV Require Import Lib.Py.
 From PV Require Import Spec.CfgSpec Model.DomRef Model.DomTree Model.LengauerTarjan.
-From PV Require Import Proofs.C25_ref Proofs.C25_cert Proofs.C25_intervals Proofs.C25_bounded Proofs.C25_lt.
+From PV Require Import Proofs.C25_ref Proofs.C25_cert Proofs.C25_intervals.
 From PV Require Import Proofs.C25_complete Proofs.C25_compose Proofs.C25_pdom Proofs.C25_reach Proofs.C25_tree.
+From PV Require Import Proofs.C25_term Proofs.C25_df.
 Close Scope Z_scope.
 Open Scope nat_scope.
 
@@ -88,35 +89,6 @@ Theorem c25_intervals : forall tr fuel,
 Proof. exact intervals_correct. Qed.
 Print Assumptions c25_intervals.
 
-(* ---- bounded: every graph with 1..4 nodes (all 2^(n*n) edge relations), entry 0 *)
-Theorem c25_dominates_bounded : forall n g, 1 <= n <= 4 -> In g (all_graphs n) ->
-  exists iv, tree_intervals g 0 (idom_list g 0) = Ok iv /\
-    query_rows below_or_same (length g) iv = dom_rows g 0 /\
-    query_rows below (length g) iv = sdom_rows g 0.
-Proof. exact dominates_bounded. Qed.
-Print Assumptions c25_dominates_bounded.
-
-Theorem c25_df_cytron_bounded : forall n g, 1 <= n <= 4 -> In g (all_graphs n) ->
-  exists l, df_by_node g 0 (idom_list g 0) = Ok l /\
-    forall x, x < length g ->
-      (reachable_ref g 0 x = true -> nth x l None = Some (nth x (df_list g 0) [])) /\
-      (reachable_ref g 0 x = false -> nth x l None = None).
-Proof. exact df_bounded. Qed.
-Print Assumptions c25_df_cytron_bounded.
-
-Theorem c25_pdom_fixpoint_bounded : forall n g x, 1 <= n <= 4 -> In g (all_graphs n) ->
-  x < length g -> succs g x = [] ->
-  post_dominators (length g * length g + 2) g x = Ok (pdom_rows g x).
-Proof. exact pdom_bounded. Qed.
-Print Assumptions c25_pdom_fixpoint_bounded.
-
-Theorem c25_reach_fixpoint_bounded : forall n g, 1 <= n <= 4 -> In g (all_graphs n) ->
-  calculate_reach (length g * length g + 2) g = Ok (reach_rows g).
-Proof. exact reach_bounded. Qed.
-Print Assumptions c25_reach_fixpoint_bounded.
-
-
-
 (* ---- existence of immediate dominators; the checker never rejects the true map (every graph) *)
 Theorem c25_idom_exists : forall g e w, reachable g e w -> w <> e -> exists d, is_idom g e d w.
 Proof. exact idom_exists. Qed.
@@ -180,14 +152,54 @@ Theorem c25_reach_fixpoint_correct : forall g fuel res, calculate_reach fuel g =
 Proof. exact calculate_reach_correct. Qed.
 Print Assumptions c25_reach_fixpoint_correct.
 
-(* ---- Lengauer-Tarjan (model of lt.py): every graph with 1..4 nodes, entry 0, two iteration orders
-        of the successor/predecessor sets; outside the code's domain the model raises KeyError *)
-Theorem c25_lt_bounded : forall n g, 1 <= n <= 4 -> In g (all_graphs n) ->
-  lt_idom g (preds_of g) 0 = (if lt_domain g 0 then Ok (idom_list g 0) else Internal KeyError) /\
-  lt_idom (map (@rev nat) g) (map (@rev nat) (preds_of g)) 0 =
-    (if lt_domain g 0 then Ok (idom_list g 0) else Internal KeyError).
-Proof. exact lt_bounded. Qed.
-Print Assumptions c25_lt_bounded.
+
+(* ---- Cytron's dominance-frontier recursion by the path definitions (every graph):
+        DF(x) = {y in succ x | idom y <> x}  U  {y in DF(z) | idom z = x, idom y <> x} *)
+Theorem c25_df_decompose : forall g e x y, reachable g e x ->
+  (in_df g e x y <->
+   (edge g x y /\ idom_is (idom_list g e) y x = false) \/
+   (exists z, pget (idom_list g e) z = Some x /\ in_df g e z y /\ idom_is (idom_list g e) y x = false)).
+Proof. exact df_decompose. Qed.
+Print Assumptions c25_df_decompose.
+
+(* ---- calculate_dominance_frontier (model: dominator tree from the idom map, explicit-stack
+        bottom_up order, local + up rule) = dominance frontier by definition, for every graph and
+        every idom map accepted by the checker; main statement, c25_df_cytron_bounded is kept *)
+Theorem c25_df_cytron : forall g e t, e < length g -> check_idom g e t = true -> length t = length g ->
+  exists df, cytron_df (2 * length g + 2) g e t = Ok df /\
+    (forall x, reachable g e x ->
+       exists s, alookup x df = Some s /\ forall y, In y s <-> in_df g e x y) /\
+    (forall x, ~ reachable g e x -> alookup x df = None).
+Proof. exact cytron_accepted. Qed.
+Print Assumptions c25_df_cytron.
+
+(* ---- the two set fixpoints terminate within their fuel: total correctness (every graph) *)
+Theorem c25_pdom_fixpoint_terminates : forall g x, x < length g -> succs g x = [] ->
+  exists res, post_dominators (length g * length g + 2) g x = Ok res.
+Proof. exact post_dominators_terminates. Qed.
+Print Assumptions c25_pdom_fixpoint_terminates.
+
+Theorem c25_reach_fixpoint_terminates : forall g,
+  exists res, calculate_reach (length g * length g + 2) g = Ok res.
+Proof. exact calculate_reach_terminates. Qed.
+Print Assumptions c25_reach_fixpoint_terminates.
+
+Theorem c25_pdom_fixpoint_total : forall g x, x < length g -> succs g x = [] ->
+  exists res, post_dominators (length g * length g + 2) g x = Ok res /\
+    forall w d, w < length g ->
+      (In d (nth w res []) <-> d < length g /\ postdominates g x d w).
+Proof. exact post_dominators_total. Qed.
+Print Assumptions c25_pdom_fixpoint_total.
+
+Theorem c25_reach_fixpoint_total : forall g,
+  exists res, calculate_reach (length g * length g + 2) g = Ok res /\
+    forall u d, u < length g -> (In d (nth u res []) <-> reachable_plus g u d).
+Proof. exact calculate_reach_total. Qed.
+Print Assumptions c25_reach_fixpoint_total.
+
+(* the bounded (vm_compute) theorems c25_dominates_bounded, c25_df_cytron_bounded, c25_pdom_fixpoint_bounded,
+   c25_reach_fixpoint_bounded and c25_lt_bounded are in Props/C25_bounded.v (checked in every tier);
+   c25_lt_bounded5 is in Props/C25_thorough.v *)
 
 (* hypotheses are inhabited: a diamond with a loop; its idom map passes the checker and the
    numbered tree has distinct labels *)
